@@ -6,7 +6,7 @@
    length, in binary32 and binary64.  Statement only; proof in Proofs/DirichletFl.v.                                              *)
 From Coq Require Import ZArith Bool Reals List.
 From Flocq Require Import Core.Core IEEE754.BinarySingleNaN.
-From RD Require Import Proofs.BetaFinalFl Proofs.DirichletFl Proofs.AffineFl Proofs.DirichletSumFl.
+From RD Require Import Proofs.BetaFinalFl Proofs.DirichletFl Proofs.AffineFl Proofs.DirichletSumFl Gen.FlProg.
 Import ListNotations.
 Open Scope R_scope.
 
@@ -48,9 +48,17 @@ Theorem C11_stick_step : forall prec emax (Hp : Prec_gt_0 prec) (Hpe : Prec_lt_e
     <= 2 * bpow radix2 (- prec) + 3 * (/ 2 * bpow radix2 (3 - emax - prec)).
 Proof. exact stick_step. Qed.
 
+(* ---- tie to the source: the two assignments of the loop body in multi/dirichlet.rs (`*s = …`, `acc = …`) as read off /repo on
+   every run (Gen/FlProg.v, tools/flprog.py) are the step of sticks_fl. *)
+Theorem C11_fl_source : forall prec emax (Hp : Prec_gt_0 prec) (Hpe : Prec_lt_emax prec emax) (acc b : binary_float prec emax) r,
+  sticks_fl prec emax Hp Hpe acc (b :: r) =
+    src_dirichlet_stick_out prec emax Hp Hpe acc b :: sticks_fl prec emax Hp Hpe (src_dirichlet_stick_acc prec emax Hp Hpe acc b) r.
+Proof. intros. reflexivity. Qed.
+
 Print Assumptions C11_sticks_fl_def.
 Print Assumptions C11_in_unit_def.
 Print Assumptions C11_dirichlet_sticks_fl.
 Print Assumptions C11_sumR_def.
 Print Assumptions C11_dirichlet_sum_fl.
 Print Assumptions C11_stick_step.
+Print Assumptions C11_fl_source.
